@@ -26,6 +26,9 @@ def inputs_for(torch, e, seed):
         if e.has("noparams") and x.dim() == 2:
             g = torch.linspace(-15.0, 15.0, 6 * x.shape[1]).reshape(6, -1)
             outs.append(("grid -15..15", g))
+            # far out on both sides (single precision saturates long before double does): the outputs and
+            # log-dets of a map defined on the whole line stay finite and agree
+            outs.append(("grid -60..60", torch.linspace(-60.0, 60.0, 6 * x.shape[1]).reshape(6, -1)))
     return outs
 
 
